@@ -227,6 +227,12 @@ def generate(rng, ctx):
                     ps = pairs(3)
                     op["it"]["pairs"] = ps + [[ps[0][0], ps[1][1]], [ps[2][0], ps[0][1]]]
             ops.append(op)
+            if name == "setitem" and vf and vf.get("family") == "float" and rng.random() < 0.5:
+                # one key given two values in a row that compare equal but are not the same (the zero of either sign, an
+                # integer and the float equal to it): the builtin holds the later one
+                first, second = rng.choice([(0.0, -0.0), (-0.0, 0.0), (-0.0, 0), (0, -0.0)])
+                op["v"] = first
+                ops.append({"op": "setitem", "k": op["k"], "v": second, "has_v": True})
         init = pairs(rng.choice([0, 1, 3]))
     def tidy(o):
         # (the inner list of an item is there for the member operations; what the item schema makes of odd values for it is
@@ -532,14 +538,14 @@ def _cmp(ref, proxy):
         if any(isinstance(x, dict) for x in ref):
             d = model.match(list(ref), list(got))
             return ("builtin has %r, proxy has %r (%s)" % (ref, list(got), d)) if d else None
-        if not eqstar(ref, list(got)):
+        if not eqstar(ref, list(got), zero_sign=True):
             return "builtin has %r, proxy has %r" % (ref, list(got))
         if len(proxy) != len(ref):
             return "len differs"
         return None
     if not isinstance(proxy, dict):
         return "value is a %s" % type(proxy).__name__
-    if not eqstar(list(ref.items()), [(k, v) for k, v in got.items()]):
+    if not eqstar(list(ref.items()), [(k, v) for k, v in got.items()], zero_sign=True):
         return "builtin has %r, proxy has %r" % (ref, dict(got))
     return None
 
